@@ -408,7 +408,7 @@ if __name__ == "__main__":
     except LostAnchor as e:
         print("LOST ANCHOR:", e, file=sys.stderr)
         sys.exit(2)
-    out = os.path.join(VERIF, "build", name + (".canary" if canary else "") + ".rs")
+    out = os.path.join(VERIF, "build", name + ("_canary" if canary else "") + ".rs")
     os.makedirs(os.path.dirname(out), exist_ok=True)
     with open(out, "w") as f:
         f.write(u.text())
